@@ -40,6 +40,8 @@ CLAIMED["C11"] = ("preservation: (S) RewriteAtQuery on hand-built modules with s
 CLAIMED["C20"] = ("rejected / failing invocations: the argv combination, the crash index k of an injected OSError (before open / after truncating open / "
     "mid-write) and the index j of a failing emitter call are solver variables over the real __main__.main / ground_truth / sync_properties on the "
     "in-memory FS; every file afterwards is untouched or complete and parseable", "DESIGN.md#c20")
+CLAIMED["C14"] = ("sync_properties: (S) sync_property on hand-built modules whose output identifiers and location segments are solver variables "
+    "(resolving or not), with and without wrap template; (F) sync_properties on the in-memory FS over module pairs x 1..3 pairs x wrap x eval", "DESIGN.md#c14")
 NA = {
     "C19": "gen: every data path crosses importlib / inspect.getsource / compile+exec / file output, no symbolic data path is left; what remains is enumeration of a few concrete configurations, which is not this technique (DESIGN.md §C19)",
 }
